@@ -2674,6 +2674,72 @@ class LambdaFn(SrvFn):
         return Fn.simple(self, s, env)
 
 
+class PhFn(Fn):
+    """`ProxyHandler::process`: the socket is re-parented to the handler and a ProxySocket is created for it with the routed
+    path and the configured upstream address (actions of `Qhttp/Model/VxPrim.lean`)"""
+    def __init__(self, ctx, key):
+        Fn.__init__(self, ctx, key)
+        self.state_ty = "List Vx.PAct"
+        self.env_sig = ""
+        self.uses_env = False
+        self.params = [p for p in self.params if not p[2].startswith("?")]          # Socket *socket
+
+    def effectful(self, n):
+        return True
+
+    def member(self, n):
+        n = strip(n)
+        if n.get("kind") == "MemberExpr" and kids(n):
+            base = strip(kids(n)[0])
+            if base.get("kind") == "MemberExpr" and base.get("name") == "d" and kids(base) and strip(kids(base)[0]).get("kind") == "CXXThisExpr":
+                return n["name"]
+        return None
+
+    def is_socket(self, n):
+        n0 = strip(n)
+        return n0.get("kind") == "DeclRefExpr" and n0.get("referencedDecl", {}).get("name") == "socket"
+
+    def simple(self, s, env):
+        s0 = strip(s)
+        if s0.get("kind") == "CXXNewExpr" and "ProxySocket" in qt(s0):
+            args = [c for c in kids(s0) if c.get("kind") == "CXXConstructExpr"]
+            a = [x for x in kids(args[0]) if x.get("kind") != "CXXDefaultArgExpr"] if args else []
+            if len(a) == 4 and self.is_socket(a[0]) and self.member(a[2]) == "address" and self.member(a[3]) == "port":
+                p, c, t = self.ex(a[1], env)
+                if t == "qstr" and not p:
+                    return ["let s := Vx.pact s (Vx.PAct.newProxySocket %s)" % c], env
+            raise Untranslatable("new ProxySocket with other arguments")
+        if s0.get("kind") == "CXXMemberCallExpr":
+            callee = strip(kids(s0)[0])
+            real = [x for x in kids(s0)[1:] if x.get("kind") != "CXXDefaultArgExpr"]
+            if callee.get("name") == "setParent" and kids(callee) and self.is_socket(kids(callee)[0]) and len(real) == 1 and strip(real[0]).get("kind") == "CXXThisExpr":
+                return ["let s := Vx.pact s Vx.PAct.reparent"], env
+            raise Untranslatable("call %s in ProxyHandler::process" % callee.get("name"))
+        return Fn.simple(self, s, env)
+
+
+def translate_ph(repo, exp):
+    docs = clang_ast(repo, "proxyhandler.cpp", "QHttpEngine::ProxyHandler::process", exp)
+    decls = {}
+    for d in docs:
+        if d.get("kind") == "CXXMethodDecl" and body_of(d) is not None and d.get("name") == "process":
+            decls["ProxyHandler::process"] = d
+    ctx = Ctx(decls, {}, "")
+    ctx.fetch = lambda name: clang_ast(repo, "proxyhandler.cpp", name, exp)
+    ctx.fn_class = PhFn
+    done, failed = [], []
+    try:
+        ctx.need("ProxyHandler::process")
+    except Untranslatable as e:
+        failed.append("ProxyHandler::process (%s)" % e)
+    out = ["-- GENERATED on every run by tools/cxx2lean_qt.py from src/src/proxyhandler.cpp — do not edit.",
+           "import Qhttp.Model.VxPrim", "set_option linter.unusedVariables false", "", "namespace QhttpGen.Ph", "open Qhttp", ""]
+    for key in ctx.order:
+        out.append(ctx.code[key]); done.append(key)
+    out.append("end QhttpGen.Ph\n")
+    return "\n".join(out), done, failed
+
+
 def translate_srv(repo, exp):
     docs = clang_ast(repo, "server.cpp", "QHttpEngine::Server", exp)
     decls = {}
@@ -2829,6 +2895,11 @@ if __name__ == "__main__":
     import sys
     if len(sys.argv) > 2 and sys.argv[2] == "fs":
         text, done, failed = translate_fs(sys.argv[1], "/repo/_build/src")
+        print(text)
+        print("-- done:", done, "\n-- failed:", failed, file=sys.stderr)
+        sys.exit(0)
+    if len(sys.argv) > 2 and sys.argv[2] == "ph":
+        text, done, failed = translate_ph(sys.argv[1], "/repo/_build/src")
         print(text)
         print("-- done:", done, "\n-- failed:", failed, file=sys.stderr)
         sys.exit(0)
